@@ -109,7 +109,18 @@ func verifC07Sys(id string, seed int64) *verifSys {
 		w := verifNewPair(verifPairCfg{Seed: seed, PolA: pa, PolB: pb})
 		m := &monC07{}
 		w.Mon = m
-		if start != "plain" {
+		if start == "tiny" {
+			// boundary outputs of the randomness source: tiny D-H exponents, so that g^x, g^y and the shared secrets
+			// are short integers (MPIs of 1 to 24 bytes instead of 192)
+			for i := 0; i < 2; i++ {
+				for _, e := range [][]int64{{39, 8, 3, 191, 7}, {5, 191, 39, 2, 8}}[i] {
+					b := make([]byte, 40)
+					b[39], b[38] = byte(e), byte(e>>8)
+					w.P[i].R.Script = append(w.P[i].R.Script, b)
+				}
+			}
+		}
+		if start != "plain" && start != "tiny" {
 			w.Q[1] = append(w.Q[1], w.P[0].Query())
 			if !w.deliverAll(40, nil) || !w.P[0].C.IsEncrypted() || !w.P[1].C.IsEncrypted() {
 				panic("verif: C07 setup: no initial session for " + id)
@@ -284,13 +295,16 @@ func init() {
 		Level: "model_checking",
 		Build: verifC07Sys,
 		Run: func(r *verifReport) {
-			r.Rule = "for each policy pair sharing a version × start state (plaintext, encrypted=refresh, one side finished, both ended a moment ago, one side restarted and lost the session while the other still believes in it) × trigger (query, whitespace tag, error-triggered restart, Send under required encryption) × initiator (A, B, both before any delivery): every interleaving of deliveries on two FIFO queues until quiescence (complete search, horizon 60 deliveries); oracle at quiescence: both encrypted, same SSID, new session on refresh, probe text readable both ways"
+			r.Rule = "for each policy pair sharing a version × start state (plaintext, encrypted=refresh, one side finished, both ended a moment ago, one side restarted and lost the session while the other still believes in it, plaintext with the randomness source scripted to tiny D-H exponents) × trigger (query, whitespace tag, error-triggered restart, Send under required encryption) × initiator (A, B, both before any delivery): every interleaving of deliveries on two FIFO queues until quiescence (complete search, horizon 60 deliveries); oracle at quiescence: both encrypted, same SSID, new session on refresh, probe text readable both ways"
 			r.Assumptions = []string{"reliable FIFO network, no loss", "refresh scenarios start with the 60 s query-ignore window expired (virtual clock ticked)"}
 			pols := []string{"3-3", "2-2", "23-23", "23-2", "23-3", "2-23", "3-23"}
 			starts := []string{"plain", "enc", "fin", "ended", "lost"}
 			trigs := []string{"query", "ws", "err", "req"}
 			whos := []string{"A", "B", "A+B", "B+A"}
 			for _, p := range pols {
+				for _, wh := range []string{"A", "B"} {
+					r.explore(verifC07Sys(fmt.Sprintf("%s/tiny/query/%s", p, wh), r.Seed))
+				}
 				for _, s := range starts {
 					for _, t := range trigs {
 						for _, wh := range whos {
